@@ -82,13 +82,13 @@ func (h *connIDManager) add(f *wire.NewConnectionIDFrame) error {
 			ErrorMessage: "received NEW_CONNECTION_ID frame but zero-length connection IDs are in use",
 		}
 	}
-	// If the NEW_CONNECTION_ID frame is reordered, such that its sequence number is smaller than the currently active
-	// connection ID or if it was already retired, send the RETIRE_CONNECTION_ID frame immediately.
-	if f.SequenceNumber < max(h.activeSequenceNumber, h.highestProbingID) || f.SequenceNumber < h.highestRetired {
-		h.queueControlFrame(&wire.RetireConnectionIDFrame{
-			SequenceNumber: f.SequenceNumber,
-		})
-		return nil
+	// A retransmitted frame for a connection ID that is currently in use (as the active
+	// connection ID or for probing a path) must not lead to the retirement of that connection ID.
+	inUse := f.SequenceNumber == h.activeSequenceNumber
+	for _, entry := range h.pathProbing {
+		if entry.SequenceNumber == f.SequenceNumber {
+			inUse = true
+		}
 	}
 
 	if f.RetirePriorTo != 0 && h.pathProbing != nil {
@@ -117,17 +117,23 @@ func (h *connIDManager) add(f *wire.NewConnectionIDFrame) error {
 		h.highestRetired = f.RetirePriorTo
 	}
 
-	if f.SequenceNumber == h.activeSequenceNumber {
-		return nil
+	if !inUse {
+		// If the NEW_CONNECTION_ID frame is reordered, such that its sequence number is smaller than the currently active
+		// connection ID or if it was already retired, send the RETIRE_CONNECTION_ID frame immediately.
+		// Connection IDs are taken from the queue in the order of their sequence numbers: every sequence number
+		// up to the highest one used for path probing has either been retired or is in use.
+		if f.SequenceNumber < h.activeSequenceNumber || f.SequenceNumber < h.highestRetired ||
+			(h.highestProbingID > 0 && f.SequenceNumber <= h.highestProbingID) {
+			h.queueControlFrame(&wire.RetireConnectionIDFrame{
+				SequenceNumber: f.SequenceNumber,
+			})
+		} else if err := h.addConnectionID(f.SequenceNumber, f.ConnectionID, f.StatelessResetToken); err != nil {
+			return err
+		}
 	}
 
-	if err := h.addConnectionID(f.SequenceNumber, f.ConnectionID, f.StatelessResetToken); err != nil {
-		return err
-	}
-
-	// Retire the active connection ID, if necessary.
-	if h.activeSequenceNumber < f.RetirePriorTo {
-		// The queue is guaranteed to have at least one element at this point.
+	// Retire the active connection ID, if necessary (and as soon as a replacement is available).
+	if h.activeSequenceNumber < h.highestRetired && len(h.queue) > 0 {
 		h.updateConnectionID()
 	}
 	return nil
